@@ -2,6 +2,8 @@ import RactorModel.Extracted
 import RactorModel.Lemmas.LifeC04
 import RactorModel.Lemmas.LifeWorld
 import RactorModel.Lemmas.LifeResidue
+import RactorModel.Lemmas.LifeDelivery
+import RactorModel.Lemmas.LifeC04Spec
 
 /-!
 # C04 — Failures are contained and reported to the supervisor exactly once
@@ -43,7 +45,7 @@ open Life
 /-- **C04, all schedules, full strength.** For every actor and every sequence of operations the
 actor's trace is accepted by the supervision-event automaton. -/
 theorem reported_once (id : Nat) (ops : List AOp) : Life.C04.ok id (trace id ops) = true := by
-  obtain ⟨s', h, _⟩ := Life.C04.run_sim id ops (Actor.init id) {} (Life.C04.inv_init id)
+  obtain ⟨s', h, _⟩ := Life.C04.run_sim id ops (Actor.init id) {} (Life.C04.inv_init id) {} (Life.C01.inv_init id) (cellOk_init id)
   simp [Life.C04.ok, trace, h, Except.isOk, Except.toBool]
 
 /-- **The same for the composed world** (what the driver replays): in every run of `World.step`
@@ -67,7 +69,7 @@ reason / drain marker / kill is known to the automaton; the automaton's supervis
 theorem invariant (id : Nat) (ops : List AOp) :
     ∃ s, accepts (Life.C04.next id) {} (trace id ops) = .ok s ∧
       Life.C04.Inv id ((Actor.init id).run ops).1 s :=
-  Life.C04.run_sim id ops (Actor.init id) {} (Life.C04.inv_init id)
+  Life.C04.run_sim id ops (Actor.init id) {} (Life.C04.inv_init id) {} (Life.C01.inv_init id) (cellOk_init id)
 
 /-- A failed start-up (`pre_start` Err / panic, kill during start-up, refused link) emits nothing
 and the actor is done: `failSpawn` produces only the spawn result. -/
@@ -86,8 +88,351 @@ pending waiters are released, calls queued to it are resolved (never answered). 
 `Life`-level statement of what C08 demands; C08 itself is decided by its own check. The driver
 model `life-residue` runs this automaton, plus the registry frame clauses, on the implementation's
 traces.) -/
-theorem failed_spawn_leaves_nothing (id : Nat) (ops : List AOp) : Life.Residue.ok (trace id ops) = true :=
-  Life.Residue.residue_ok id ops
+theorem failed_spawn_leaves_nothing (id : Nat) (ops : List AOp)
+    (hops : ∀ op ∈ ops, Life.Residue.AOp.notInstant op = true) : Life.Residue.ok (trace id ops) = true :=
+  Life.Residue.residue_ok id ops hops
+
+/-! ### Round 4: instant spawns, re-linking -/
+
+/-- `spawn_instant*`: a kill that reaches the cell while it is still `Unstarted` wins against
+`pre_start`: the first poll of the start task enters no callback, emits no supervision event (even
+though a thread-local cell was linked to its supervisor an instant before), reports
+`Err("Actor killed during startup")` through the start handle and leaves the cell `done`. -/
+theorem instant_kill_before_start (a : Actor) (supOk : Bool) (hph : a.phase = .cell)
+    (hst : a.status = .unstarted) (hk : a.sigVal = true) :
+    (∀ e ∈ evs (opPollSpawn a supOk).2, e = .spawnRet .killed ∨ e = .spawnRet .nolink) ∧
+    (opPollSpawn a supOk).1.phase = .done := by
+  have hc := Life.C04.cleanup_none
+  unfold opPollSpawn startInstant
+  simp only [hph, hst, ne_eq, not_true_eq_false, ↓reduceIte]
+  have hb : ∀ b : Actor, b.sigVal = true →
+      (∀ e ∈ evs (beginPre b).2, e = .spawnRet .killed ∨ e = .spawnRet .nolink) ∧ (beginPre b).1.phase = .done := by
+    intro b hb
+    unfold beginPre
+    simp only [hb, ↓reduceIte]
+    refine ⟨?_, by simp [failSpawn, Actor.dropPorts]⟩
+    intro e he
+    simp [handleSignal, failSpawn, (hc _).1] at he
+    exact Or.inl he
+  split
+  · split
+    · split
+      · refine ⟨?_, by simp [failSpawn, Actor.dropPorts]⟩
+        intro e he
+        simp [failSpawn, (hc _).1] at he
+        exact Or.inr he
+      · refine ⟨?_, ?_⟩
+        · intro e he
+          simp only [andThen_snd, evs_append, evs_doLink, List.nil_append] at he
+          exact (hb _ (by simpa using hk)).1 e he
+        · exact (hb _ (by simpa using hk)).2
+    · exact hb _ (by simpa using hk)
+  · exact hb _ (by simpa using hk)
+
+/-- **A cell handed out by `spawn_instant` is always started**: in every reachable state a cell whose start
+task has not run is `Unstarted` (`Lemmas/LifeCell.lean`), so the "cannot start an actor more than once" test of
+`start()` never fires — no sequence of sends, stops, kills, drains, links, … on the `ActorRef` makes the
+start task return `Err(ActorAlreadyStarted)` (this is repo fix e926850, for all op sequences). -/
+theorem instant_start_never_refused (id : Nat) (ops : List AOp) :
+    CellOk ((Actor.init id).run ops).1 ∧ Ev.spawnRet .already ∉ trace id ops := by
+  refine ⟨cellOk_run ops (Actor.init id) {} (Life.C01.inv_init id) (cellOk_init id), ?_⟩
+  obtain ⟨s', h, _⟩ := Life.C04.run_sim id ops (Actor.init id) {} (Life.C04.inv_init id) {} (Life.C01.inv_init id) (cellOk_init id)
+  -- an accepted trace cannot contain an event the automaton rejects in every state
+  have key : ∀ (tr : List Ev) (s s1 : Life.C04.St), accepts (Life.C04.next id) s tr = .ok s1 →
+      Ev.spawnRet .already ∉ tr := by
+    intro tr
+    induction tr with
+    | nil => intro _ _ _ hm; cases hm
+    | cons e es ih =>
+      intro s s1 hacc hm
+      rw [accepts_cons] at hacc
+      cases hn : Life.C04.next id s e with
+      | error c => simp [hn] at hacc
+      | ok s2 =>
+        simp only [hn] at hacc
+        rcases List.mem_cons.mp hm with hm | hm
+        · subst hm; simp [Life.C04.next] at hn
+        · exact ih s2 s1 hacc hm
+  exact key _ _ _ h
+
+/-- The public `ActorCell::link` / `unlink` emit nothing: a re-link never produces (or duplicates) a
+lifecycle event; it only changes who the supervisor *is* (`supIs` after the op), and `reported_once`
+then demands that every later event goes to exactly that actor. -/
+theorem relink_silent (a : Actor) (p : Nat) (supOk : Bool) :
+    evs (opLink a p supOk).2 = [] ∧ evs (opUnlink a p).2 = [] := by
+  constructor
+  · unfold opLink; split <;> simp
+  · unfold opUnlink; split <;> simp
+
+/-- After an accepted `link p` the supervisor IS `p` (and the actor left the previous supervisor's
+child set: effect `unlink q`); a refused one changes nothing. -/
+theorem relink_target (a : Actor) (p : Nat) (supOk : Bool) :
+    (opLink a p supOk).1.sup = (if Status.draining.rank ≤ a.status.rank || !supOk then a.sup else some p) := by
+  unfold opLink; split <;> simp
+
+/-- Non-vacuity: an instant spawn that receives a message, a stop and then a relink before its start task
+runs; the terminal event goes to the supervisor of that instant (7, not the requested 3). -/
+example : traceNoSnap 5 [.spawnInstant (some 3) none true false, .send 1, .link 7 true, .pollSpawn true,
+      .resume ⟨[], .ok⟩, .pollSpawn true, .unlink 3, .link 7 true, .poll, .resume ⟨[], .ok⟩, .poll,
+      .resume ⟨[], .err 4⟩, .poll] =
+    [.instant, .sendRet false 1 true, .supIs (some 7), .enter .preStart .none, .tick .preStart,
+     .exit .preStart .ok, .spawnRet .ok, .supIs (some 3), .supIs none, .supIs (some 7),
+     .enter .postStart .none, .tick .postStart, .exit .postStart .ok, .emit 7 (.started 5),
+     .enter .handle (.msg 1), .tick .handle, .exit .handle (.err 4), .emit 7 (.failed 5 false 4), .join .ok,
+     .supIs none] := by decide
+
+/-- Non-vacuity: a kill before the start task's first poll. -/
+example : traceNoSnap 5 [.spawnInstant none none true false, .kill, .pollSpawn true, .send 2] =
+    [.instant, .killRet false true, .spawnRet .killed, .sendRet false 2 false] := by decide
+
+/-- **`ActorStarted` exactly once iff `post_start` returned Ok — the positive half, trace level.**
+In an accepted trace: if `post_start` returns ok (`exit post_start ok` after the prefix `p`) while a supervisor
+`q` is observed (`observedSup p = some q`), then before any further callback is entered and before any terminal
+event is emitted, `ActorStarted` has been emitted (`mid` = what lies between that `exit` and the next such event
+`e`; `post_start` returns once). Together with the clauses "at most once", "only right after `exit post_start
+ok`", "to the observed supervisor" of `reported_once` this is: exactly once, iff `post_start` succeeded. -/
+theorem started_is_emitted (me : Nat) (tr p mid r : List Ev) (e : Ev) (q : Nat)
+    (h : Life.C04.ok me tr = true)
+    (hsplit : tr = p ++ .exit .postStart .ok :: (mid ++ e :: r))
+    (hsup : Life.C04.observedSup p none = some q)
+    (hone : ∀ x ∈ mid, x ≠ .exit .postStart .ok)
+    (he : Life.C04.needsStarted e = true) :
+    ∃ x ∈ mid, Life.C04.isStartedEmit x = true := by
+  obtain ⟨s, hs⟩ := Life.C04.ok_iff.mp h
+  subst hsplit
+  obtain ⟨s1, h1, h2⟩ := Life.C01.accepts_append_inv _ p _ hs
+  rw [accepts_cons] at h2
+  cases hn : Life.C04.next me s1 (.exit .postStart .ok) with
+  | error c => simp [hn] at h2
+  | ok s2 =>
+    simp only [hn] at h2
+    obtain ⟨s3, h3, h4⟩ := Life.C01.accepts_append_inv _ mid _ h2
+    have hms : s2.mustStart = true := by
+      rw [Life.C04.next_exit_postStart hn, Life.C04.accepts_sup h1]
+      show (Life.C04.observedSup p none).isSome = true
+      rw [hsup]; rfl
+    -- by contradiction: if no `ActorStarted` in `mid`, `mustStart` is still up at `e`
+    cases hall : mid.all (fun x => !Life.C04.isStartedEmit x) with
+    | false =>
+      simp only [List.all_eq_false] at hall
+      obtain ⟨x, hx, hxs⟩ := hall
+      exact ⟨x, hx, by simpa using hxs⟩
+    | true =>
+      exfalso
+      have hno : ∀ x ∈ mid, Life.C04.isStartedEmit x = false ∧ x ≠ .exit .postStart .ok := by
+        intro x hx
+        have := (List.all_eq_true.mp hall) x hx
+        exact ⟨by simpa using this, hone x hx⟩
+      obtain ⟨hm3, _⟩ := Life.C04.accepts_mustStart h3 hms hno
+      rw [accepts_cons] at h4
+      cases hn4 : Life.C04.next me s3 e with
+      | error c => simp [hn4] at h4
+      | ok s4 =>
+        by_cases hse : Life.C04.isStartedEmit e = true
+        · cases e <;> simp [Life.C04.isStartedEmit] at hse
+          rename_i to x
+          cases x <;> simp [Life.C04.needsStarted, SupEv.isTerminal] at he hse
+        · by_cases hex : e = .exit .postStart .ok
+          · subst hex; simp [Life.C04.needsStarted] at he
+          · have := ((Life.C04.next_fields hn4).2 hm3 (by simpa using hse) hex).2
+            rw [this] at he; cases he
+
+/-! ### Known finding F15 (`c04.missing-terminal-in-cycle`): supervision cycles
+
+ractor's `link()` accepts a link that closes a supervision cycle. An actor that exits while it is on such a
+cycle does not send its terminal event: its own `terminate()` walks back to it and clears its supervisor
+before `notify_supervisor`. The model's `cleanup` does send the event, so the model describes the code on
+**acyclic** runs only; the full statement ("for every run of the real system the trace of every actor is accepted")
+is false of the code, as the witness shows. -/
+
+/-- The trace of actor 0 that the REAL code produces on the witness `corpus/C04/e-lts-link-cycle.ops`
+(events of actor 0 as the driver derives them from the implementation's observations: `link 0 1`, then — after
+`link 1 0` closed the cycle — `stop 0`, `post_stop`, and the end of the task with NO terminal event although
+the observed supervisor is 1). -/
+def cycleWitnessImplTrace : List Ev :=
+  [.enter .preStart .none, .tick .preStart, .exit .preStart .ok, .spawnRet .ok,
+   .enter .postStart .none, .tick .postStart, .exit .postStart .ok,
+   .supIs (some 1),
+   .stopRet false .none true, .enter .postStop .none, .tick .postStop, .exit .postStop .ok,
+   .join .ok]
+
+/-- **Negation on the witness**: the property's own oracle rejects what the implementation does there
+(`c04.missing-terminal`, reported by the driver as `c04.missing-terminal-in-cycle`). -/
+theorem reported_once_false_on_cycle_witness : Life.C04.ok 0 cycleWitnessImplTrace = false := by decide
+
+/-- …while the model, on such ops (the same links, shortened: both actors only started, then `abort 0`), emits the terminal event to the supervisor of that instant (this is
+where model and code part; the driver renders the model's line without that event when the exiting actor is on
+a cycle, so the witness replays without a DIFF and the oracle reports the finding). -/
+def cycleWitnessOps : List Op :=
+  [.spawn 0 none none false, .resume 0 ⟨[], .ok⟩, .pollSpawn 0,
+   .spawn 1 none none false, .resume 1 ⟨[], .ok⟩, .pollSpawn 1, .link 0 1, .link 1 0]
+
+def cycleWorld : World := (({} : World).run cycleWitnessOps).1
+
+example : cycleWorld.onCycle 0 = true := by decide
+example : (cycleWorld.step (.abort 0)).2.1.any
+    (fun o => o.2 == .ev (.emit 1 (.terminated 0 false .cancelled))) = true := by decide
+
+/-- No op of the run closes a supervision cycle (a public `link`, or the link a start is going to make,
+whose new supervisor is the actor itself or one of its descendants) — decidable, evaluated along the run. -/
+def acyclicRun (w : World) : List Op → Bool
+  | [] => true
+  | op :: ops => !op.closesCycle w && acyclicRun (w.step op).1 ops
+
+/-- **C04 for the composed world, partial form (F15 excluded)**: on runs that never close a supervision
+cycle — the runs on which the model is claimed to describe the code — the trace projection of every actor is
+accepted. (The hypothesis is not needed for the model, whose `cleanup` always reports; it marks the runs the
+check's generator produces and the tie covers.) -/
+theorem reported_once_world_partial (ops : List Op) (h : ∀ op ∈ ops, op ≠ .case)
+    (_hac : acyclicRun ({} : World) ops = true) (i : Nat) :
+    Life.C04.ok i (projEvs i (({} : World).run ops).2) = true :=
+  reported_once_world ops h i
+
+-- not an acyclic run: its 8th op `link 1 0` closes the cycle (0 is already under 1)
+example : (Op.link 1 0).closesCycle (({} : World).run (cycleWitnessOps.take 7)).1 = true := by decide
+example : (Op.link 0 1).closesCycle (({} : World).run (cycleWitnessOps.take 6)).1 = false := by decide
+example : acyclicRun ({} : World) cycleWitnessOps = false := by decide
+example : acyclicRun ({} : World) (cycleWitnessOps.take 7) = true := by decide
+
+/-! ### Round 4: delivery and frame in the composed world
+
+`C04.reported_once` is about what an actor *emits*; these two are about the rest of the world
+(`Lemmas/LifeDelivery.lean`). `World.stepDone` (the fuel of `World.effects` sufficed) is evaluated by
+the driver on every replayed step and reported as `model-fuel-exhausted` if ever false, so no effect is
+dropped silently. -/
+
+/-- **Delivery**: in every step of the composed world whose effects were processed completely, the
+supervision events arriving at other actors' ports are exactly the events the target emitted in that
+step (to targets that have a cell): the same events, in emission order, each exactly once, and
+nobody else receives anything; routing the effects emits no further event. (`noSpawn`: no callback of
+the step spawned a child — then the set of actors that have a cell is the same before and after.) -/
+theorem emitted_is_delivered (w : World) (op : Op) (hd : w.stepDone op = true)
+    (hns : noSpawn (w.step op).2.1) :
+    arrivalsOf (w.step op).2.2 = deliverable (w.step op).1 (emitsOf (w.step op).2.1) ∧
+    emitsOf (w.step op).2.2 = [] :=
+  step_delivery w op hd hns
+
+/-- An event handed to a live supervisor (ports open) is in its supervision queue afterwards, behind
+what was already queued; C03 (`pick_supervision`, `priority`) then has it handled before any message. -/
+theorem delivered_is_enqueued (a : Actor) (e : SupEv) (h : a.portsOpen = true) :
+    (opSupArrive a e).1.supQ = a.supQ ++ [e] :=
+  supArrive_enqueues a e h
+
+/-- **Frame** ("unrelated actors keep running"): an actor that is not the target of the op and shows no
+output among the routed effects of the step (it is neither the supervisor that was notified / linked /
+unlinked nor a descendant reached by `terminate()`) is left exactly as it was. -/
+theorem unrelated_untouched (w : World) (op : Op) (i : Nat)
+    (htgt : ∀ a aop, op.target w = some (a, aop) → a ≠ i)
+    (hi : ∀ o ∈ (w.step op).2.2, o.1 ≠ i) (hc : op ≠ .case) : (w.step op).1.get i = w.get i :=
+  step_frame w op i htgt hi hc
+
+/-- Non-vacuity: the fuel of a concrete three-actor step suffices and the failure of actor 2 is delivered
+to its supervisor 0 and to nobody else; actor 1 is untouched. -/
+def dWorld : World := (({} : World).run
+  [.spawn 0 none none false, .resume 0 ⟨[], .ok⟩, .pollSpawn 0, .spawn 1 none none false,
+   .spawn 2 (some 0) none false, .resume 2 ⟨[], .ok⟩, .pollSpawn 2, .poll 2, .resume 2 ⟨[], .panic 9⟩]).1
+
+example : dWorld.stepDone (.poll 2) = true := by decide
+example : arrivalsOf (dWorld.step (.poll 2)).2.2 = [(0, .failed 2 true 9)] := by decide
+example : ((dWorld.step (.poll 2)).1.get 0).supQ = [.failed 2 true 9] := by decide
+example : (dWorld.step (.poll 2)).1.get 1 = dWorld.get 1 := by decide
+
+/-! ### Round 4: the `monitors` feature
+
+`Actor.mons` (ops `monAdd` / `monDel` = `m.monitor(me)` / `m.unmonitor(me)`, `monDrop` = a failed send to a dead
+monitor) and `notifyOuts`: every `notify_supervisor` first hands a state-less copy to each monitor (trace
+event `monFan reg tg e`, one routing effect `monSend m e` per monitor), then the event to the supervisor.
+`reported_once` covers it through the automaton clauses `c04.monitor-set` (targets = the monitors
+registered at that instant: nobody missed, nobody else, nobody twice), `c04.monitor-state`,
+`c04.after-terminal` (at most one terminal fan-out), `c04.started-not-after-post_start`,
+`c04.monitor-event-differs` (the supervisor's event is the same event). The ops only occur in the
+`monitors` build of the harness (`hcoremon/life_mon`), which is a run of this check. -/
+
+/-- **Exactly one copy per monitor registered at that instant, same constructor / text / reason as the
+supervisor's event, no state.** What one `notify_supervisor(e)` puts out for an actor with monitor set
+`a.mons`: the routing effects are exactly one `monSend m e.strip` per `m ∈ a.mons` (in that order), the
+trace event says `targets = registered = a.mons`, and the only other output is the supervisor's `emit p e`
+(if supervised) — whose state-less form is the monitors' copy. -/
+theorem monitors_each_exactly_once (a : Actor) (e : SupEv) :
+    (notifyOuts a e).filterMap (fun o => match o with | .eff (.monSend m x) => some (m, x) | _ => none)
+      = a.mons.map (fun m => (m, e.strip)) ∧
+    evs (notifyOuts a e) =
+      (if a.mons = [] then [] else [.monFan a.mons a.mons e.strip]) ++
+      (match a.sup with | some p => [.emit p e] | none => []) := by
+  unfold notifyOuts
+  constructor
+  · cases hm : a.mons with
+    | nil => cases a.sup <;> simp
+    | cons m ms =>
+      cases a.sup <;> simp [List.filterMap_append, List.filterMap_map, Function.comp_def]
+  · cases hm : a.mons with
+    | nil => cases a.sup <;> simp
+    | cons m ms => cases a.sup <;> simp
+
+/-- The monitor set is what the `monitor` / `unmonitor` calls (and drops after failed sends) made it:
+ascending, and a monitor is in it iff it was added and not removed since. -/
+theorem monitor_set_ops (a : Actor) (m x : Nat) :
+    (x ∈ (a.envOp (.monDel m)).1.mons ↔ x ∈ a.mons ∧ x ≠ m) ∧
+    (x ∈ (a.envOp (.monDrop m)).1.mons ↔ x ∈ a.mons ∧ x ≠ m) ∧
+    (x ∈ (a.envOp (.monAdd m)).1.mons ↔ x = m ∨ x ∈ a.mons) := by
+  have hins : ∀ l : List Nat, x ∈ insertAsc m l ↔ x = m ∨ x ∈ l := by
+    intro l
+    induction l with
+    | nil => simp [insertAsc]
+    | cons y l ih =>
+      simp only [insertAsc]
+      split
+      · simp
+      · split
+        · rename_i h; subst h; simp
+        · simp [ih]; constructor
+          · rintro (h | h | h) <;> simp [h]
+          · rintro (h | h | h) <;> simp [h]
+  refine ⟨by simp [Actor.envOp], by simp [Actor.envOp], by simpa [Actor.envOp] using hins a.mons⟩
+
+/-- Non-vacuity: an actor supervised by 0 and monitored by 2 and 3 (3 un-monitors again) panics. -/
+example : traceNoSnap 1 [.spawn (some 0) none true false true, .monAdd 3, .monAdd 2, .resume ⟨[], .ok⟩,
+      .pollSpawn true, .monDel 3, .poll, .resume ⟨[], .panic 4⟩, .poll] =
+    [.enter .preStart .none, .tick .preStart, .exit .preStart .ok, .spawnRet .ok, .supIs (some 0),
+     .enter .postStart .none, .tick .postStart, .exit .postStart (.panic 4),
+     .monFan [2] [2] (.failed 1 true 4), .emit 0 (.failed 1 true 4), .join .ok, .supIs none] := by decide
+
+example : Life.C04.ok 1 [.supIs (some 0), .exit .handle (.err 3), .monFan [2, 3] [2, 3] (.failed 1 false 3),
+    .emit 0 (.failed 1 false 3)] = true := by decide
+-- a monitor missed, a monitor told twice, an outsider told, a different event for the supervisor, state leaked
+example : Life.C04.ok 1 [.supIs (some 0), .exit .handle (.err 3), .monFan [2, 3] [2] (.failed 1 false 3)] = false := by decide
+example : Life.C04.ok 1 [.supIs (some 0), .exit .handle (.err 3), .monFan [2] [2, 2] (.failed 1 false 3)] = false := by decide
+example : Life.C04.ok 1 [.supIs (some 0), .exit .handle (.err 3), .monFan [] [5] (.failed 1 false 3)] = false := by decide
+example : Life.C04.ok 1 [.supIs (some 0), .exit .handle (.err 3), .monFan [2] [2] (.failed 1 false 3),
+    .emit 0 (.failed 1 true 3)] = false := by decide
+example : Life.C04.ok 1 [.stopRet false .none true, .enter .postStop .none, .exit .postStop .ok,
+    .monFan [2] [2] (.terminated 1 true .none)] = false := by decide
+
+/-! ### Round 4: children spawned from inside a callback
+
+`Fx.spawnChild c` = the callback calls `ActorRuntime::spawn_linked_instant(None, child, args, myself)`
+(the instant form: nothing is awaited inside the callback). The parent's own state does not change (the
+link is made by the child's start task); the composed world gives the child a `cell` that asks for the
+parent as supervisor, and from then on the child is an ordinary instant spawn — all theorems above apply to
+it and to the parent (both are single-actor runs, `world_actor_run`). -/
+
+/-- What the side effect does to the parent: nothing but the trace event and the routing effect. -/
+theorem callback_spawn_parent_unchanged (a : Actor) (c : Nat) :
+    (runFx a (.spawnChild c)).1 = a ∧
+    (runFx a (.spawnChild c)).2 = [.ev (.fxSpawn c a.isLocal), .eff (.spawnChild c a.isLocal)] := ⟨rfl, rfl⟩
+
+/-- Non-vacuity (composed world): actor 1 (child of 0) spawns actor 2 from its message handler and fails
+in the same segment. The child's cell exists (`Unstarted`); its start task runs `pre_start` and then finds the supervisor gone:
+`Err(nolink)` through the start handle, no supervision event for it, and actor 1's failure went to 0. -/
+def sWorld : World := (({} : World).run
+  [.spawn 0 none none false, .resume 0 ⟨[], .ok⟩, .pollSpawn 0, .spawn 1 (some 0) none false,
+   .resume 1 ⟨[], .ok⟩, .pollSpawn 1, .poll 1, .resume 1 ⟨[], .ok⟩, .send 1 5, .poll 1,
+   .resume 1 ⟨[.spawnChild 2], .err 3⟩, .poll 1]).1
+
+example : (sWorld.get 2).phase = .cell ∧ (sWorld.get 2).status = .unstarted ∧ (sWorld.get 2).wantSup = some 1 := by decide
+example : (sWorld.get 0).supQ = [.started 1, .failed 1 false 3] := by decide
+example : ((sWorld.run [.pollSpawn 2, .resume 2 ⟨[], .ok⟩, .pollSpawn 2]).2.filter
+    (fun o => o.1 = 2 ∧ o.2 = .ev (.spawnRet .nolink))).length = 1 := by decide
 
 /-! ### E-SRC obligations -/
 
@@ -136,9 +481,43 @@ example : Life.C04.ok 1 [.supIs (some 0), .exit .handle (.err 3), .emit 0 (.fail
 example : Life.C04.ok 1 [.supIs (some 0), .exit .handle (.err 3), .emit 0 (.failed 1 true 3)] = false := by decide
 example : Life.C04.ok 1 [.supIs (some 0), .exit .handle (.err 3), .emit 2 (.failed 1 false 3)] = false := by decide
 example : Life.C04.ok 1 [.supIs (some 0), .exit .preStart (.err 3), .emit 0 (.failed 1 false 3)] = false := by decide
-example : Life.C04.ok 1 [.supIs (some 0), .drainRet true, .exit .postStop .ok,
+example : Life.C04.ok 1 [.supIs (some 0), .drainRet true, .enter .postStop .none, .exit .postStop .ok,
     .emit 0 (.terminated 1 true .drained), .join .ok] = true := by decide
-example : Life.C04.ok 1 [.supIs (some 0), .drainRet true, .exit .postStop .ok, .join .ok] = false := by decide
+example : Life.C04.ok 1 [.supIs (some 0), .drainRet true, .enter .postStop .none, .exit .postStop .ok, .join .ok] = false := by decide
+-- round 4: `ActorStarted` is due right after `post_start` returned ok (positive form)
+example : Life.C04.ok 1 [.supIs (some 0), .exit .postStart .ok, .enter .handle (.msg 1)] = false := by decide
+example : Life.C04.ok 1 [.supIs (some 0), .exit .postStart .ok, .killRet false true,
+    .emit 0 (.terminated 1 false .killed)] = false := by decide
+example : Life.C04.ok 1 [.exit .postStart .ok, .enter .handle (.msg 1)] = true := by decide   -- unsupervised
+-- round 4: the reason is the one of the request the loop took: a stop accepted before `post_stop` was
+-- entered wins over the drain marker, a stop accepted afterwards does not change the reason
+example : Life.C04.ok 1 [.supIs (some 0), .drainRet true, .stopRet false (.text "r") true, .enter .postStop .none,
+    .exit .postStop .ok, .emit 0 (.terminated 1 true .drained)] = false := by decide
+example : Life.C04.ok 1 [.supIs (some 0), .drainRet true, .stopRet false (.text "r") true, .enter .postStop .none,
+    .exit .postStop .ok, .emit 0 (.terminated 1 true (.text "r"))] = true := by decide
+example : Life.C04.ok 1 [.supIs (some 0), .drainRet true, .enter .postStop .none, .stopRet false (.text "r") true,
+    .exit .postStop .ok, .emit 0 (.terminated 1 true (.text "r"))] = false := by decide
+example : Life.C04.ok 1 [.supIs (some 0), .drainRet true, .enter .postStop .none, .stopRet false (.text "r") true,
+    .exit .postStop .ok, .emit 0 (.terminated 1 true .drained)] = true := by decide
+
+/-! ### E-SRC, async-std backend (round 4)
+
+`Life`'s `abort` op (the join handle's `abort()`: the task's future is dropped at its current await point, the
+join handle reports `Cancelled`) is written after tokio. With `--features async-std` the handle is ractor's own
+wrapper: `abort` only sets the `AbortHandle`; every spawn form (`spawn` = `spawn_named(None, ..)`) hands async-std a
+task whose FIRST await is `Abortable::new(future, abort_registration)` (so the abort flag is looked at before every
+poll of the actor's future and the future is dropped when the wrapper returns), sets the `is_done` flag after it, and
+`JoinHandle::poll` maps an aborted task to `Err(())`. The `verif::controlled` hook wraps the future before the
+`Abortable` wrapper, as it wraps the future handed to `tokio::spawn`. -/
+theorem src_async_std_abort :
+    Extracted.asyncStdAbortBody = "self.abort_handle.abort();"
+    ∧ Extracted.asyncStdSpawnCalls = ["async_std::task::spawn_local", "async_std::task::Builder::new()", "async_std::task::spawn"]
+    ∧ Extracted.asyncStdSpawnAwaits = List.replicate 3 "Abortable::new(future,abort_registration)"
+    ∧ Extracted.asyncStdSpawnThen = List.replicate 3 "inner_signal.fetch_or(true,Ordering::Relaxed)"
+    ∧ Extracted.asyncStdPlainSpawnBody = "spawn_named(None,future)"
+    ∧ Extracted.asyncStdJoinPollArms =
+        ["Poll::Pending=>Poll::Pending", "Poll::Ready(Ok(v))=>Poll::Ready(Ok(v))", "Poll::Ready(Err(_))=>Poll::Ready(Err(()))"] := by decide
+theorem src_async_std_verif_hooks : Extracted.asyncStdVerifHooks = ["spawn_local", "spawn_named"] := by decide
 
 end C04
 
@@ -147,6 +526,21 @@ end C04
 #print axioms C04.invariant
 #print axioms C04.prestart_failure_silent
 #print axioms C04.failed_spawn_leaves_nothing
+#print axioms C04.instant_kill_before_start
+#print axioms C04.instant_start_never_refused
+#print axioms C04.started_is_emitted
+#print axioms C04.relink_silent
+#print axioms C04.relink_target
+#print axioms C04.reported_once_false_on_cycle_witness
+#print axioms C04.reported_once_world_partial
+#print axioms C04.emitted_is_delivered
+#print axioms C04.delivered_is_enqueued
+#print axioms C04.unrelated_untouched
+#print axioms C04.monitors_each_exactly_once
+#print axioms C04.monitor_set_ops
+#print axioms C04.callback_spawn_parent_unchanged
 #print axioms C04.src_cleanup_order
 #print axioms C04.src_terminate_condition
 #print axioms C04.src_status
+#print axioms C04.src_async_std_abort
+#print axioms C04.src_async_std_verif_hooks
